@@ -16,17 +16,17 @@ Section Inner.
   (* ---- frames ----------------------------------------------------------- *)
   (* flags, log, solver x untouched; inactive knobs untouched *)
   Definition inner0 (s s' : state) : Prop :=
-    va s' = va s /\ ta s' = ta s /\ log s' = log s /\ ragged s' = ragged s /\
+    va s' = va s /\ ta s' = ta s /\ log s' = log s /\
     sx s' = sx s /\ mfl s' = mfl s /\ kn_inact E (va s) (knobs s) (knobs s').
   Definition inner (s s' : state) : Prop :=
-    va s' = va s /\ ta s' = ta s /\ log s' = log s /\ ragged s' = ragged s /\
+    va s' = va s /\ ta s' = ta s /\ log s' = log s /\
     kn_inact E (va s) (knobs s) (knobs s').
 
   Lemma inner0_refl s : inner0 s s.
   Proof. unfold inner0; repeat split; auto. apply kn_inact_refl. Qed.
   Lemma inner0_trans s1 s2 s3 : inner0 s1 s2 -> inner0 s2 s3 -> inner0 s1 s3.
   Proof.
-    unfold inner0. intros (A1 & A2 & A3 & A4 & A5 & A6 & A7) (B1 & B2 & B3 & B4 & B5 & B6 & B7).
+    unfold inner0. intros (A1 & A2 & A3 & A5 & A6 & A7) (B1 & B2 & B3 & B5 & B6 & B7).
     repeat split; try congruence. rewrite A1 in B7. eapply kn_inact_trans; eauto.
   Qed.
   Lemma inner0_inner s s' : inner0 s s' -> inner s s'.
@@ -35,7 +35,7 @@ Section Inner.
   Proof. unfold inner; repeat split; auto. apply kn_inact_refl. Qed.
   Lemma inner_trans s1 s2 s3 : inner s1 s2 -> inner s2 s3 -> inner s1 s3.
   Proof.
-    unfold inner. intros (A1 & A2 & A3 & A4 & A7) (B1 & B2 & B3 & B4 & B7).
+    unfold inner. intros (A1 & A2 & A3 & A7) (B1 & B2 & B3 & B7).
     repeat split; try congruence. rewrite A1 in B7. eapply kn_inact_trans; eauto.
   Qed.
 
@@ -173,7 +173,7 @@ Section Inner.
         assert (Hland : landed s0 x s' newpen this' /\ from_lim x xstep this' hit).
         { split.
           - exists y, (knobs s). repeat split; auto.
-            + destruct H0 as (_ & _ & _ & _ & _ & _ & Hk). exact Hk.
+            + destruct H0 as (_ & _ & _ & _ & _ & Hk). exact Hk.
             + destruct H0 as (Hva & _). rewrite <- Hva. exact I4.
           - exists (map (fun v => e_mul E (pow2neg E an) v) xstep). split; auto. apply map_length. }
         pose proof (inner0_trans _ _ _ H0 I1) as H0'.
@@ -198,7 +198,7 @@ Section Inner.
   Definition innerx (s s' : state) : Prop :=
     inner s s' /\ sx s' = sx s /\ length (mfl s') = length (mfl s).
   Lemma inner0_innerx s s' : inner0 s s' -> innerx s s'.
-  Proof. intros H. split; [apply inner0_inner; auto|]. destruct H as (_ & _ & _ & _ & H5 & H6 & _). rewrite H6; auto. Qed.
+  Proof. intros H. split; [apply inner0_inner; auto|]. destruct H as (_ & _ & _ & H5 & H6 & _). rewrite H6; auto. Qed.
   Lemma innerx_refl s : innerx s s.
   Proof. split; [apply inner_refl|auto]. Qed.
   Lemma innerx_trans s1 s2 s3 : innerx s1 s2 -> innerx s2 s3 -> innerx s1 s3.
@@ -215,10 +215,10 @@ Section Inner.
     { split.
       - apply inner0_inner in I1. unfold inner in *; stsimpl. exact I1.
       - exists x, y, (knobs s). stsimpl. repeat split; auto.
-        + destruct I1 as (_ & _ & _ & _ & Hx & _). congruence.
+        + destruct I1 as (_ & _ & _ & Hx & _). congruence.
         + apply kn_inact_refl.
         + destruct H0 as (_ & _ & Hw). apply (Hw _ Hsx).
-        + destruct I1 as (_ & _ & _ & _ & _ & Hm & _). destruct H0 as (_ & _ & Hw). rewrite Hm. apply (Hw _ Hsx). }
+        + destruct I1 as (_ & _ & _ & _ & Hm & _). destruct H0 as (_ & _ & Hw). rewrite Hm. apply (Hw _ Hsx). }
     destruct (e_ltb E penalty (e_tolj E)); [cbn; exact Hearly|].
     cbn [lpwt set_pen]. destruct (lpwt s1) eqn:Hl1; [cbn; exact Hearly|]. clear Hearly.
     set (s1p := set_pen s1 penalty).
@@ -240,7 +240,7 @@ Section Inner.
     set (xstep := clip_to_max_steps E cf (scatter E mi nstep)).
     set (s3 := set_mfl s2b (map (fun _ => true) (mfl s2b))).
     assert (J3' : innerx s s3).
-    { destruct J2 as (A1 & A2 & A3 & A4 & A5 & A6 & A7). unfold s3, innerx, inner; stsimpl.
+    { destruct J2 as (A1 & A2 & A3 & A5 & A6 & A7). unfold s3, innerx, inner; stsimpl.
       rewrite map_length, A6. repeat split; auto. }
     assert (Hb : post (bisect E cf fuel 0 None x xstep penalty s3)
                    (fun p => let '(a, np, t, h, s') := p in
@@ -251,7 +251,7 @@ Section Inner.
       - intros [[[[a np] t] h] s'] (B1 & B2 & B3).
         pose proof (innerx_trans _ _ _ J3' (inner0_innerx _ _ B1)) as B1'.
         split; [exact B1'|]. split; [|exact B3].
-        destruct J3' as ((A1 & A2 & A3 & A4 & A6) & _).
+        destruct J3' as ((A1 & A2 & A3 & A6) & _).
         destruct B2 as (y' & kp & D1 & D2 & D3 & D4). exists y', kp. rewrite A1 in D3, D4. repeat split; auto.
         eapply kn_inact_trans; eauto.
       - intros e s' B1. exact (innerx_trans _ _ _ J3' (inner0_innerx _ _ B1)). }
@@ -272,7 +272,7 @@ Section Inner.
         destruct Hs as (W1 & W2 & W3). destruct (W3 _ Hsx) as [W4 W5].
         assert (Hxs : length xstep = n).
         { unfold xstep, clip_to_max_steps. rewrite clip_loop_length, scatter_length. unfold mi. rewrite map2_length.
-          unfold s2b; stsimpl. destruct J as (V1 & _ & _ & _ & _ & V2 & _). rewrite V1, V2. lia. }
+          unfold s2b; stsimpl. destruct J as (V1 & _ & _ & _ & V2 & _). rewrite V1, V2. lia. }
         rewrite map2_length, map_length, T3, T2, x_limits_length, T1, Hxs, W4. unfold wfc in Hc. rewrite Hc. lia.
   Qed.
 End Inner.
